@@ -110,6 +110,33 @@ example : ∃ f, reaches (fun _ _ => 0) ⟨[.int .int8, .str], false, [.bool]⟩
     ⟨.inl ⟨_, rfl, rfl⟩, .inr ⟨rfl, fun _ h => by cases h⟩, trivial⟩ (fun _ => .ret [])
   ⟨f, h⟩
 
+/-- The same for the shape of plugin functions, `func(fixed…, rest ...interface{})`: with fitting
+    fixed arguments and **at most one** further argument (any non-NULL value, passed on unchanged) the
+    function is run. (A second variadic argument is "too many": `NumIn` counts the slice once.) -/
+theorem variadic_iface_call_runs_function (oob : IntKind → Num → Int) (fixed rs : List Ty)
+    (fargs extra : List Val) (hfit : AllFit fixed fargs) (hx : extra.length ≤ 1)
+    (hnn : Val.nil ∉ extra) (body : List Val → BodyOut) :
+    ∃ f, TypesMatch f fixed ∧
+      run shape oob (.fn ⟨fixed ++ [.list], true, rs⟩ body) (fargs ++ extra) =
+        finish shape ⟨fixed ++ [.list], true, rs⟩ (body (f ++ extra)) := by
+  obtain ⟨f, hty, hf⟩ := buildArgs_append_of_fits (chk := true) (oob := oob) hfit
+  have hlen := typesMatch_length hty
+  have hextra : buildArgs true oob [Ty.list] extra = .ok extra := by
+    match extra, hx with
+    | [], _ => simp [buildArgs]
+    | [e], _ => simp [buildArgs, checkArg_list]
+  have hb : buildArgs true oob (fixed ++ [Ty.list]) (fargs ++ extra) = .ok (f ++ extra) := by
+    rw [hf, hextra]
+  have hall : (extra.all fun v => valAssignable v Ty.iface) = true := by
+    rw [List.all_eq_true]
+    intro v hv
+    cases v <;> first | exact absurd hv hnn | simp [valAssignable, Val.ty, assignable]
+  have hc : callCheck ⟨fixed ++ [.list], true, rs⟩ (f ++ extra) = true := by
+    simp [callCheck, ← hlen, allAssignable_of_types hty, hall]
+  have hr : reaches oob ⟨fixed ++ [.list], true, rs⟩ (fargs ++ extra) = some (f ++ extra) := by
+    simp [reaches, hb, hc]
+  exact ⟨f, hty, reaching_runs_body hr body⟩
+
 /-! ## Wrong number of arguments -/
 
 /-- **Too many arguments** — more than `NumIn` — give a bridge error; the function is not run. -/
